@@ -551,6 +551,31 @@ func genHistory(t *rapid.T, spec *GenSpec) (*Program, int) {
 			p.Ops = append(p.Ops, Op{Kind: "batch", B: g.nextBatch(t)}, Op{Kind: "mstep"})
 		}
 	}
+	if spec.BigBatches && p.Cfg.Backing == "store" && p.Cfg.Compaction >= 1 && len(p.Ops) == 0 && chance(t, "wipebias", 6) {
+		// shape that makes a compaction leave nothing: a few hundred entries
+		// persisted, then every live key deleted, then the next round(s)
+		g.batchNo++
+		// (a compaction reserves room for the entries it expects: live + deletions;
+		// more than a page of them, i.e. > 255, is the interesting size)
+		b := &Batch{}
+		wn := rapid.IntRange(100, 420).Draw(t, "wipen")
+		for i := 0; i < wn; i++ {
+			b.Ops = append(b.Ops, KV{Op: OpSet, K: []byte(fmt.Sprintf("k%04d", i*2)), V: []byte(fmt.Sprintf("w%d.", g.batchNo))})
+		}
+		g.model.Apply(b)
+		g.everKey = true
+		p.Ops = append(p.Ops, Op{Kind: "batch", B: b}, Op{Kind: "mstep"})
+		if chance(t, "wipemid", 50) {
+			p.Ops = append(p.Ops, Op{Kind: "batch", B: g.nextBatch(t)}, Op{Kind: "mstep"})
+		}
+		g.batchNo++
+		w := &Batch{}
+		for _, k := range g.model.Keys() {
+			w.Ops = append(w.Ops, KV{Op: OpDel, K: []byte(k)})
+		}
+		g.model.Apply(w)
+		p.Ops = append(p.Ops, Op{Kind: "batch", B: w}, Op{Kind: "mstep"}, Op{Kind: "mstep"})
+	}
 	lower := p.Cfg.Backing != "mem"
 	nextID := 1
 	var snaps, iters []int
